@@ -259,12 +259,21 @@ omit [DecidableEq H] in
 theorem segments_length (ct : Bytes) (s : Nat) : (segments ct s).length = divCeil ct.length s := by
   simp [segments]
 
+omit [DecidableEq H] in
+theorem seed_ok {ops : HashOps H} {L : List H} {n : Nat} (hn : n = L.length) :
+    TreeOK ops (build ops L) (seed (newTree H n) (rootOf ops L)) := by
+  refine ⟨build_genuine ops L, ?_, seed_agree (get_build_root ops L), seed_root⟩
+  rw [seed_length, build_length, hn]
+
 theorem verifyShare_good {E : Env H} {cfg : Cfg} {prm : Params} {ser : UEB H → Bytes}
     {encode : Nat → Bytes → Nat → Bytes} {ct : Bytes} {sz : Sizes} (S : Setup E cfg prm ser encode ct sz)
     (pick : List Nat → Nat) (shnum : Nat) (hsh : shnum < prm.n) (v : VView H)
     (h : verifyShare E cfg VCfg.repaired pick (upload E prm encode ser ct).cap shnum v = .good) :
     v.uebBytes = (upload E prm encode ser ct).uebBytes ∧
-    ∀ i, i < divCeil ct.length prm.segSize → v.block i = (upload E prm encode ser ct).block shnum i := by
+    (∀ i, i < divCeil ct.length prm.segSize → v.block i = (upload E prm encode ser ct).block shnum i) ∧
+    (∀ sh, v.shareHashes = some sh → ∀ i hh, (i, hh) ∈ dictOf sh → get (upload E prm encode ser ct).shareT i = some hh) ∧
+    (∀ i hh, (i, hh) ∈ enumFrom 0 v.blockHashes → get ((upload E prm encode ser ct).blockT shnum) i = some hh) ∧
+    (∀ i hh, (i, hh) ∈ enumFrom 0 v.ctHashes → get (upload E prm encode ser ct).ctT i = some hh) := by
   unfold verifyShare at h
   split at h; · cases h
   split at h; · cases h
@@ -298,7 +307,7 @@ theorem verifyShare_good {E : Env H} {cfg : Cfg} {prm : Params} {ser : UEB H →
   split at h
   · rename_i e he; exact absurd h (vSet_err he)
   rename_i st1 hst1eq
-  obtain ⟨hst1, _, _⟩ := vSet_sound S.strict S.inj hst0 hst1eq
+  obtain ⟨hst1, _, hshG⟩ := vSet_sound S.strict S.inj hst0 hst1eq
   split at h; · cases h
   split at h
   · rename_i e he
@@ -332,10 +341,16 @@ theorem verifyShare_good {E : Env H} {cfg : Cfg} {prm : Params} {ser : UEB H →
   split at h
   · rename_i e he; exact absurd h (vSet_err he)
   rename_i bt1 hbt1eq
-  obtain ⟨hbt1, _, _⟩ := vSet_sound S.strict S.inj hbtS' hbt1eq
+  obtain ⟨hbt1, _, hbhG⟩ := vSet_sound S.strict S.inj hbtS' hbt1eq
   split at h; · cases h
   split at h
   · rename_i e he; exact absurd h (vSet_err he)
+  rename_i chtOk hcteq
+  have hcht0 : TreeOK E.ops (upload E prm encode ser ct).ctT
+      (seed (newTree H info.numSegments) (upload E prm encode ser ct).ueb.ctRoot) :=
+    seed_ok (ops := E.ops) (L := ctLeaves E prm ct) (by rw [ctLeaves_length, hns])
+  obtain ⟨_, _, hctG⟩ := vSet_sound S.strict S.inj hcht0 hcteq
+  refine ⟨?_, fun sh' hsh' => by rw [hshv] at hsh'; injection hsh' with e; subst e; exact hshG, hbhG, hctG⟩
   intro i hi
   have hleafB : ∀ j, j < info.numSegments →
       get ((upload E prm encode ser ct).blockT shnum) (firstLeafNum info.numSegments + j)
